@@ -22,17 +22,18 @@ def frames(prop):
     add({'C13'}, lambda: F.absent('frame/no-catch_unwind-in-the-crate', r'\bcatch_unwind\b', SRC))
     add({'C13', 'C19', 'C07', 'C05'}, lambda: F.in_order(
         'frame/stabilise-asserts-not-stabilising-then-start-then-recompute-loop-then-end', 'src/state.rs', 'stabilise_debug',
-        [r'assert_eq!\(\s*self\.status\.get\(\)\s*,\s*IncrStatus::NotStabilising\s*\)', r'self\.stabilise_start\(\)',
-         r'recompute_heap\.remove_min\(\)', r'self\.stabilise_end\(\)'], impl='impl State'))
-    add({'C07', 'C13', 'C05'}, lambda: F.in_order(
-        'frame/stabilise_start-sets-Stabilising-before-linking-and-unlinking-observers', 'src/state.rs', 'stabilise_start',
-        [r'self\.status\.set\(\s*IncrStatus::Stabilising\s*\)', r'self\.add_new_observers\(\)', r'self\.unlink_disallowed_observers\(\)'],
-        impl='impl State'))
-    add({'C08', 'C09', 'C13'}, lambda: F.in_order(
-        'frame/stabilise_end-order', 'src/state.rs', 'stabilise_end',
-        [r'stabilisation_num\s*\.\s*set\(', r'set_var_stabilise_end\(\)', r'break_rc_cycle\(\)', r'is_in_handle_after_stabilisation\(\)\s*\.\s*set\(\s*false\s*\)', r'\.node_update\(\)',
-         r'self\.status\.set\(\s*IncrStatus::RunningOnUpdateHandlers\s*\)', r'\.run_on_update_handlers\(',
-         r'self\.status\.set\(\s*IncrStatus::NotStabilising\s*\)'], impl='impl State'))
+        [r'self\s*\.\s*stabilise_start\(\)', r'recompute_heap\s*\.\s*remove_min\(\)', r'self\s*\.\s*stabilise_end\(\)'], impl='impl State'))
+    # stabilise_end: three partial orders (statements that are independent of each other may be reordered freely)
+    add({'C08', 'C13'}, lambda: F.in_order(
+        'frame/stabilise_end-order/parked-var-writes-are-applied-after-the-clock-ticks-and-before-dead-vars-are-unhooked', 'src/state.rs', 'stabilise_end',
+        [r'stabilisation_num\s*\.\s*set\(', r'\.\s*set_var_stabilise_end\(\)', r'\.\s*break_rc_cycle\(\)'], impl='impl State'))
+    add({'C09', 'C08', 'C13'}, lambda: F.in_order(
+        'frame/stabilise_end-order/updates-are-classified-after-the-clock-ticks-and-delivered-under-RunningOnUpdateHandlers', 'src/state.rs', 'stabilise_end',
+        [r'stabilisation_num\s*\.\s*set\(', r'\.\s*node_update\(\)', r'self\s*\.\s*status\s*\.\s*set\(\s*IncrStatus::RunningOnUpdateHandlers\s*\)',
+         r'\.\s*run_on_update_handlers\(\s*\w+\s*,', r'self\s*\.\s*status\s*\.\s*set\(\s*IncrStatus::NotStabilising\s*\)'], impl='impl State'))
+    add({'C09', 'C08', 'C13'}, lambda: F.in_order(
+        'frame/stabilise_end-order/parked-var-writes-are-applied-before-handlers-run', 'src/state.rs', 'stabilise_end',
+        [r'\.\s*set_var_stabilise_end\(\)', r'self\s*\.\s*status\s*\.\s*set\(\s*IncrStatus::RunningOnUpdateHandlers\s*\)'], impl='impl State'))
 
     add({'C13', 'C07', 'C10'}, lambda: F.body_is(
         'frame/Observer::value-reads-through-try_get_value', 'src/public.rs', 'value',
@@ -48,53 +49,48 @@ def frames(prop):
         'frame/observers-become-Unlinked-only-in-disallow_future_use-and-unlink_disallowed_observers',
         r'\.set\(\s*(ObserverState::)?Unlinked\s*\)', {'disallow_future_use', 'unlink_disallowed_observers'}, SRC, min_hits=2))
     add({'C10'}, lambda: F.only_in(
-        'frame/all_observers-filled-only-in-add_new_observers', r'\bao\.insert\(', {'add_new_observers'}, ST, min_hits=1))
-    add({'C10'}, lambda: F.absent(
-        'frame/all_observers-keyed-by-id', r'\bao\.insert\((?!\s*obs\.id\(\)\s*,\s*obs\.clone\(\)\s*\))', ST))
+        'frame/all_observers-borrowed-mutably-only-to-link-unlink-or-destroy', r'\ball_observers\s*\.\s*(borrow_mut|replace|take|swap)\(',
+        {'add_new_observers', 'unlink_disallowed_observers', 'destroy', 'drop'}, ST, min_hits=2))
     add({'C10', 'C05', 'C07'}, lambda: F.only_in(
         'frame/clone-sentinel-touched-only-by-new-and-drop', r'\bsentinel\b', {'new', 'drop', None}, ['src/public.rs'], min_hits=4, strict=True))
 
+    # what is done per observer is under contract (unit steps, rule R7h); the iteration itself is not: pinned here, and a
+    # different way of iterating is undecided, not an alarm
     add({'C10', 'C07', 'C05', 'C09'}, lambda: F.in_order(
-        'frame/add_new_observers-visits-every-queued-observer-and-handles-the-node', 'src/state.rs', 'add_new_observers',
-        [r'for\s+weak\s+in\s+no\.drain\(\.\.\)', r'let\s+Some\(obs\)\s*=\s*weak\.upgrade\(\)\s*else\s*\{\s*continue',
-         r'ObserverState::Created\s*=>', r'obs\.state\(\)\.set\(ObserverState::InUse\)', r'let\s+was_necessary\s*=\s*node\.is_necessary\(\)',
-         r'ao\.insert\(', r'obs\.add_to_observed_node\(\)', r'node\.handle_after_stabilisation\(self\)', r'if\s+!was_necessary\s*\{',
-         r'node\.became_necessary_propagate\(self\)'], impl='impl State'))
+        'frame/add_new_observers-drains-the-queue-of-new-observers', 'src/state.rs', 'add_new_observers',
+        [r'\.\s*drain\(\s*\.\.\s*\)'], impl='impl State', strict=False))
     add({'C09'}, lambda: F.in_order(
         'frame/a-changed-node-is-queued-for-its-handlers-whichever-path-changed-it', 'src/node.rs', 'maybe_change_value_manual',
-        [r'if\s+did_change\s*\{', r'self\.changed_at\.set\(', r'self\.maybe_handle_after_stabilisation\(state\)', r'let\s+parents\s*='],
+        [r'self\s*\.\s*changed_at\s*\.\s*set\(', r'self\s*\.\s*maybe_handle_after_stabilisation\(\s*\w+\s*\)'],
         impl='impl Node'))
     add({'C07', 'C10', 'C05'}, lambda: F.in_order(
         'frame/observe-counts-and-queues-the-new-observer', 'src/state.rs', 'observe',
-        [r'InternalObserver::new\(incr\)', r'self\.num_active_observers\.increment\(\)', r'no\.push\(Rc::downgrade\(&internal_observer\)'], impl='impl State'))
+        [r'InternalObserver::new\(\s*\w+\s*\)', r'\.\s*push\('], impl='impl State'))
+    add({'C07', 'C10', 'C05'}, lambda: F.occurs(
+        'frame/observe-counts-the-new-observer-once', 'src/state.rs', 'observe', r'self\s*\.\s*num_active_observers\s*\.\s*increment\(\)', 1, impl='impl State'))
     add({'C07', 'C10'}, lambda: F.in_order(
         'frame/a-new-observer-starts-in-Created', 'src/internal_observer.rs', 'new',
         [r'state:\s*Cell::new\(Created\)'], impl='impl<T: Value> InternalObserver<T>'))
     add({'C05', 'C10'}, lambda: F.in_order(
-        'frame/unlinking-a-disallowed-observer-rechecks-the-node', 'src/state.rs', 'unlink_disallowed_observers',
-        [r'for\s+obs_weak\s+in\s+disallowed\.drain\(\.\.\)', r'obs\.state\(\)\.set\(ObserverState::Unlinked\)',
-         r'let\s+observing\s*=\s*obs\.observing_packed\(\)', r'obs\.remove_from_observed_node\(\)', r'ao\.remove\(&obs\.id\(\)\)',
-         r'observing\.check_if_unnecessary\(self\)'], impl='impl State'))
+        'frame/unlink_disallowed_observers-drains-the-queue-of-disallowed-observers', 'src/state.rs', 'unlink_disallowed_observers',
+        [r'\.\s*drain\(\s*\.\.\s*\)'], impl='impl State', strict=False))
     PV = 'impl<T: Value> Var<T>'
-    add({'C08'}, lambda: F.body_is('frame/public-Var::set-forwards', 'src/public.rs', 'set', r'self\.internal\.set\(value\)', impl=PV))
-    add({'C08'}, lambda: F.body_is('frame/public-Var::update-forwards', 'src/public.rs', 'update', r'self\.internal\.update\(f\)', impl=PV))
-    add({'C08'}, lambda: F.body_is('frame/public-Var::modify-forwards', 'src/public.rs', 'modify', r'self\.internal\.modify\(f\);?', impl=PV))
+    add({'C08'}, lambda: F.body_is('frame/public-Var::set-forwards', 'src/public.rs', 'set', r'self\.internal\.set\(\w+\)', impl=PV))
+    add({'C08'}, lambda: F.body_is('frame/public-Var::update-forwards', 'src/public.rs', 'update', r'self\.internal\.update\(\w+\)', impl=PV))
+    add({'C08'}, lambda: F.body_is('frame/public-Var::modify-forwards', 'src/public.rs', 'modify', r'self\.internal\.modify\(\w+\);?', impl=PV))
     add({'C08'}, lambda: F.body_is('frame/public-Var::get-forwards', 'src/public.rs', 'get', r'self\.internal\.get\(\)', impl=PV))
-    add({'C08'}, lambda: F.body_is('frame/public-Var::replace_with-forwards', 'src/public.rs', 'replace_with', r'self\.internal\.replace_with\(\|mutable\|f\(mutable\)\)', impl=PV))
-    add({'C08'}, lambda: F.body_is('frame/public-Var::replace-is-replace_with-constant', 'src/public.rs', 'replace', r'self\.internal\.replace_with\(\|_\|value\)', impl=PV))
+    add({'C08'}, lambda: F.body_is('frame/public-Var::replace_with-forwards', 'src/public.rs', 'replace_with', r'self\.internal\.replace_with\(\|(\w+)\|\w+\(\1\)\)', impl=PV))
+    add({'C08'}, lambda: F.body_is('frame/public-Var::replace-is-replace_with-constant', 'src/public.rs', 'replace', r'self\.internal\.replace_with\(\|_\w*\|\w+\)', impl=PV))
     # -- subscriber notifications ----------------------------------------------------------------------------
     add({'C09'}, lambda: F.only_in(
         'frame/handlers-run-only-from-stabilise_end', r'\.run_on_update_handlers\(', {'stabilise_end'}, SRC, min_hits=1))
     add({'C09'}, lambda: F.only_in(
-        'frame/handler.run-called-only-by-the-two-delivery-loops', r'\bhandler\.run\(', {'run_all', 'run_on_update_handlers'}, SRC, min_hits=2))
-    add({'C09', 'C10'}, lambda: F.in_order(
-        'frame/run_all-guards-each-handler', 'src/internal_observer.rs', 'run_all',
-        [r'handlers\.iter_mut\(\)', r'match\s+self\.state\.get\(\)', r'Disallowed\s*=>\s*\(\)', r'InUse\s*=>\s*handler\.run\('],
-        impl='impl<T: Value> ErasedObserver for InternalObserver<T>'))
+        'frame/handler.run-called-only-by-the-two-delivery-loops', r'\b(?!span\b|\w*_span\b)\w+\s*\.\s*run\(\s*\w+\s*,\s*\w+\s*,\s*\w+\s*\)', {'run_all', 'run_on_update_handlers'},
+        ['src/node.rs', 'src/internal_observer.rs', 'src/state.rs', 'src/public.rs', 'src/incr.rs'], min_hits=2))
     add({'C09'}, lambda: F.in_order(
         'frame/try_subscribe-maps-Necessary-to-Initialised', 'src/public.rs', 'try_subscribe',
-        [r'NodeUpdate::Necessary\(t\)\s*=>\s*Update::Initialised\(t\)', r'NodeUpdate::Changed\(t\)\s*=>\s*Update::Changed\(t\)',
-         r'NodeUpdate::Invalidated\s*=>\s*Update::Invalidated', r'self\.internal\.subscribe\(handler\)', r'node\.handle_after_stabilisation\('],
+        [r'NodeUpdate::Necessary\((\w+)\)\s*=>\s*Update::Initialised\(\1\)', r'NodeUpdate::Changed\((\w+)\)\s*=>\s*Update::Changed\(\1\)',
+         r'NodeUpdate::Invalidated\s*=>\s*Update::Invalidated', r'self\s*\.\s*internal\s*\.\s*subscribe\(\s*\w+\s*\)', r'\.\s*handle_after_stabilisation\('],
         impl='impl<T: Value> Observer<T>'))
 
     # -- node values and stamps ------------------------------------------------------------------------------
@@ -109,8 +105,8 @@ def frames(prop):
         {'recompute_one', 'invalidate_node'}, SRC, min_hits=2))
     add({'C06'}, lambda: F.in_order(
         'frame/maybe_change_value-consults-cutoff-with-old-then-new', 'src/node.rs', 'maybe_change_value',
-        [r'let\s+old_value_opt\s*=\s*self\.value_opt\.take\(\)', r'\.map_or\(\s*true\s*,\s*\|old\|\s*!cutoff\.should_cutoff\(&\*\*old,\s*value\.as_ref\(\)\)\)',
-         r'self\.value_opt\.replace\(Some\(value\)\)', r'self\.maybe_change_value_manual\('], impl='impl Node'))
+        [r'self\s*\.\s*value_opt\s*\.\s*take\(\)', r'\.\s*should_cutoff\(\s*&\*\*\w+\s*,\s*\w+\.as_ref\(\)\s*\)',
+         r'self\s*\.\s*value_opt\s*\.\s*replace\(\s*Some\(\s*\w+\s*\)\s*\)', r'self\s*\.\s*maybe_change_value_manual\('], impl='impl Node'))
     add({'C06'}, lambda: F.in_order(
         'frame/bind-lhs-change-never-cuts-off', 'src/incr.rs', 'bind',
         [r'set_cutoff\(&\*lhs_change,\s*Cutoff::Never\)'], impl=None))
@@ -119,68 +115,52 @@ def frames(prop):
         [r'\(&mut \*self\.should_cutoff\)\(a,\s*b\)'], impl='impl ErasedCutoff'))
     add({'C06'}, lambda: F.in_order(
         'frame/erased-cutoff-downcasts-then-asks-the-typed-cutoff-with-old-then-new', 'src/cutoff.rs', 'new',
-        [r'let Some\(a\) = a\.as_any\(\)\.downcast_ref::<T>\(\)', r'let Some\(b\) = b\.as_any\(\)\.downcast_ref::<T>\(\)', r'cutoff\.should_cutoff\(a,\s*b\)'],
+        [r'\|\s*(\w+)\s*(?::[^,|]+)?,\s*(\w+)\s*(?::[^|]+)?\|(?s:.*?)\.\s*should_cutoff\(\s*\1\s*,\s*\2\s*\)'],
         impl='impl ErasedCutoff'))
     add({'C19', 'C11'}, lambda: F.only_in(
-        'frame/the-raw-height-setter-is-used-only-by-the-checked-one', r'\b(?!state\b|ah_heap\b)\w+\.set_height\(',
-        {'adjust_heights_heap.rs::set_height', 'adjust_heights_heap.rs::ensure_height_requirement'},
-        ['src/node.rs', 'src/state.rs', 'src/adjust_heights_heap.rs', 'src/recompute_heap.rs', 'src/kind/bind.rs', 'src/scope.rs'], min_hits=2))
+        'frame/the-raw-height-setter-is-used-only-by-the-checked-one', r'\.\s*set_height\(\s*(?:[^,()]|\([^()]*\))+\)',
+        {'adjust_heights_heap.rs::set_height'},
+        ['src/node.rs', 'src/state.rs', 'src/adjust_heights_heap.rs', 'src/recompute_heap.rs', 'src/kind/bind.rs', 'src/scope.rs'], min_hits=1))
     add({'C19'}, lambda: F.only_in(
         'frame/node-height-assigned-only-in-Node::set_height', r'\bheight\s*\.\s*(set|replace)\(', {'set_height'}, NODE, min_hits=1))
 
     # -- OrdMap adapter (im_rc enumerates; the crate only re-tags): argument order of the dependency calls -----------
     add({'C18'}, lambda: F.in_order(
         'frame/ordmap-symmetric_diff-is-self.diff(other)-retagged', 'incremental-map/src/im_rc.rs', 'symmetric_diff',
-        [r'self\.diff\(other\)\s*\.map\(DiffElement::from_diff_item\)'],
+        [r'self\s*\.\s*diff\(\s*\w+\s*\)\s*\.\s*map\(\s*DiffElement::from_diff_item\s*\)'],
         impl="impl<'a, K: Ord + 'a, V: PartialEq + 'a> SymmetricDiffMap<'a, K, V> for OrdMap<K, V>"))
     add({'C18'}, lambda: F.body_is(
         'frame/btreemap-symmetric_fold-is-exactly-self.symmetric_diff(other).fold(init,f)', 'incremental-map/src/symmetric_fold.rs', 'symmetric_fold',
-        r'self\.symmetric_diff\(other\)\.fold\(init,f\)', impl='impl<K: Ord, V: PartialEq> SymmetricFoldMap<K, V> for BTreeMap<K, V>'))
+        r'self\.symmetric_diff\(\w+\)\.fold\(\w+,\w+\)', impl='impl<K: Ord, V: PartialEq> SymmetricFoldMap<K, V> for BTreeMap<K, V>'))
     add({'C18'}, lambda: F.body_is(
         'frame/rc-btreemap-symmetric_fold-derefs-both-and-folds-the-diff', 'incremental-map/src/symmetric_fold.rs', 'symmetric_fold',
-        r'letself_target=self\.deref\(\);letother_target=other\.deref\(\);self_target\.symmetric_diff\(other_target\)\.fold\(init,f\)',
+        r'let(\w+)=self\.deref\(\);let(\w+)=(\w+)\.deref\(\);\1\.symmetric_diff\(\2\)\.fold\(\w+,\w+\)',
         impl='impl<K: Ord, V: PartialEq> SymmetricFoldMap<K, V> for Rc<BTreeMap<K, V>>'))
     add({'C18'}, lambda: F.body_is(
         'frame/btreemap-symmetric_diff-builds-the-iterator-from-self-then-other', 'incremental-map/src/symmetric_fold.rs', 'symmetric_diff',
-        r'SymmetricDiff\{self_:self,other,keys:MergeOnce::new\(self\.keys\(\),other\.keys\(\)\),\}',
+        r'SymmetricDiff\{self_:self,other(:\w+)?,keys:MergeOnce::new\(self\.keys\(\),\w+\.keys\(\)\),?\}',
         impl="impl<'a, K: Ord + 'a, V: PartialEq + 'a> SymmetricDiffMap<'a, K, V> for BTreeMap<K, V>"))
     add({'C18'}, lambda: F.body_is(
         'frame/ordmap-symmetric_fold-is-exactly-self.symmetric_diff(other).fold(init,f)', 'incremental-map/src/im_rc.rs', 'symmetric_fold',
-        r'self\.symmetric_diff\(other\)\.fold\(init,f\)',
+        r'self\.symmetric_diff\(\w+\)\.fold\(\w+,\w+\)',
         impl='impl<K: Ord, V: PartialEq> SymmetricFoldMap<K, V> for OrdMap<K, V>'))
     add({'C18'}, lambda: F.body_is(
         'frame/ordmap-symmetric_diff-is-exactly-self.diff(other)-retagged', 'incremental-map/src/im_rc.rs', 'symmetric_diff',
-        r'self\.diff\(other\)\.map\(DiffElement::from_diff_item\)',
+        r'self\.diff\(\w+\)\.map\(DiffElement::from_diff_item\)',
         impl="impl<'a, K: Ord + 'a, V: PartialEq + 'a> SymmetricDiffMap<'a, K, V> for OrdMap<K, V>"))
 
     # -- graph surgery helpers that neither verifier reaches: statement order pinned ---------------------------
     EN = 'impl ErasedNode for Node'
     add({'C19', 'C11'}, lambda: F.in_order(
         'frame/adjust_heights-checks-parent-and-bind-scope-edges-of-every-popped-node', 'src/adjust_heights_heap.rs', 'adjust_heights',
-        [r'while\s+let\s+Some\(child\)\s*=\s*self\.remove_min\(\)',
-         r'if\s+child\.is_in_recompute_heap\(\)\s*\{\s*rch\.increase_height\(&child\);\s*\}\s*child\.ensure_parent_height_requirements\(self,\s*&original_child,\s*&original_parent\);\s*child\.adjust_heights_bind_lhs_change\(self,\s*&original_child,\s*&original_parent\);'],
+        [r'self\s*\.\s*remove_min\(\)', r'\.\s*is_in_recompute_heap\(\)', r'\.\s*increase_height\(', r'\.\s*ensure_parent_height_requirements\(\s*self\s*,'],
         impl='impl AdjustHeightsHeap'))
-    add({'C11'}, lambda: F.in_order(
-        'frame/bind-rhs-swap-keeps-the-old-rhs-necessary-while-the-new-one-is-linked', 'src/node.rs', 'change_child_bind_rhs',
-        [r'old_child_node\.remove_parent\(child_index,\s*bind_main\)', r'old_child_node\.force_necessary\(\)\.set\(true\)',
-         r'new_child\.state_add_parent\(child_index,\s*bind_main,\s*state\)', r'old_child_node\.force_necessary\(\)\.set\(false\)',
-         r'old_child_node\.check_if_unnecessary\(state\)'], impl=EN))
-    add({'C11', 'C14'}, lambda: F.in_order(
-        'frame/expert-invalidate-propagates-to-dependants', 'src/state/expert.rs', 'invalidate',
-        [r'node\.invalidate_node\(&state\)', r'state\.propagate_invalidity\(\)'], impl=None))
-    add({'C14', 'C11'}, lambda: F.in_order(
-        'frame/every-push-of-an-invalid-child-is-counted-before-the-parent-is-queued', 'src/state.rs', 'propagate_invalidity',
-        [r'if\s+node\.should_be_invalidated\(\)', r'node\.invalidate_node\(self\)', r'node\.propagate_invalidity_helper\(\);',
-         r'if\s+!node\.is_in_recompute_heap\(\)\s*\{\s*self\.recompute_heap\.insert\(node\)'], impl='impl State'))
     add({'C14', 'C09', 'C06'}, lambda: F.occurs(
         'frame/every-parent-of-a-changed-node-is-told-unconditionally', 'src/node.rs', 'maybe_change_value_manual',
-        r'if\s+run_child_changed\s*\{\s*let\s+result\s*=\s*p\.child_changed\(self,\s*child_index,\s*old_value_opt\)', 2, impl='impl Node'))
-    add({'C05', 'C14', 'C11'}, lambda: F.body_is(
-        'frame/removing-an-expert-dependency-unlinks-and-rechecks-the-child', 'src/node.rs', 'expert_remove_child',
-        r'letchild=dyn_edge\.erased_input\(\);child\.remove_parent\(child_index,self\);child\.check_if_unnecessary\(state\);', impl=EN))
+        r'if\s+run_child_changed\s*\{\s*(let\s+\w+\s*=\s*)?\w+\s*\.\s*child_changed\(\s*self\s*,', 2, impl='impl Node'))
     add({'C05'}, lambda: F.in_order(
         'frame/an-invalidated-necessary-node-releases-its-children', 'src/node.rs', 'invalidate_node',
-        [r'if\s+self\.is_necessary\(\)\s*\{\s*self\.remove_children\(state\);'], impl=EN))
+        [r'self\s*\.\s*is_necessary\(\)', r'self\s*\.\s*remove_children\(\s*\w+\s*\)'], impl=EN))
 
     # -- thin public wrappers and constructors the properties silently depend on: one-line forwarders pinned -----------
     IS = 'impl IncrState'
@@ -190,30 +170,30 @@ def frames(prop):
     add({'C19', 'C13'}, lambda: F.body_is('frame/State::stabilise-forwards', 'src/state.rs', 'stabilise', r'self\.stabilise_debug\(None\)', impl='impl State'))
     add({'C08'}, lambda: F.body_is('frame/IncrState::is_stable-forwards', 'src/public.rs', 'is_stable', r'self\.inner\.is_stable\(\)', impl=IS))
     add({'C19'}, lambda: F.body_is('frame/IncrState::set_max_height_allowed-forwards', 'src/public.rs', 'set_max_height_allowed',
-                                   r'self\.inner\.set_max_height_allowed\(new_max_height\)', impl=IS))
+                                   r'self\.inner\.set_max_height_allowed\(\w+\)', impl=IS))
     add({'C19'}, lambda: F.body_is('frame/IncrState::new_with_height-forwards', 'src/public.rs', 'new_with_height',
-                                   r'letinner=State::new_with_height\(max_height\);Self\{inner\}', impl=IS))
+                                   r'let(\w+)=State::new_with_height\(\w+\);Self\{(inner:)?\1\}', impl=IS))
     add({'C19'}, lambda: F.in_order('frame/State::new_with_height-configures-both-heaps-with-N', 'src/state.rs', 'new_with_height',
                                     [r'recompute_heap:\s*RecomputeHeap::new\(max_height\)', r'adjust_heights_heap:\s*RefCell::new\(AdjustHeightsHeap::new\(max_height\)\)',
                                      r'status:\s*Cell::new\(IncrStatus::NotStabilising\)'], impl='impl State'))
-    add({'C10', 'C09'}, lambda: F.body_is('frame/IncrState::unsubscribe-forwards', 'src/public.rs', 'unsubscribe', r'self\.inner\.unsubscribe\(token\)', impl=IS))
-    add({'C10', 'C09'}, lambda: F.body_is('frame/Observer::unsubscribe-forwards', 'src/public.rs', 'unsubscribe', r'self\.internal\.unsubscribe\(token\)', impl=OB))
-    add({'C10', 'C09'}, lambda: F.body_is('frame/Observer::subscribe-is-try_subscribe', 'src/public.rs', 'subscribe', r'self\.try_subscribe\(on_update\)\.unwrap\(\)', impl=OB))
-    add({'C05', 'C07', 'C10'}, lambda: F.body_is('frame/Incr::observe-registers-with-the-state', 'src/incr.rs', 'observe',
-                                          r'letincr=self\.clone\(\);letinternal=incr\.node\.state\(\)\.observe\(incr\);Observer::new\(internal\)', impl=IN))
-    add({'C06'}, lambda: F.body_is('frame/Incr::set_cutoff-forwards', 'src/incr.rs', 'set_cutoff', r'self\.node\.set_cutoff\(cutoff\);', impl=IN))
-    add({'C06'}, lambda: F.body_is('frame/Incr::set_cutoff_fn-forwards', 'src/incr.rs', 'set_cutoff_fn', r'self\.node\.set_cutoff\(Cutoff::Fn\(cutoff_fn\)\);', impl=IN))
+    add({'C10', 'C09'}, lambda: F.body_is('frame/IncrState::unsubscribe-forwards', 'src/public.rs', 'unsubscribe', r'self\.inner\.unsubscribe\(\w+\)', impl=IS))
+    add({'C10', 'C09'}, lambda: F.body_is('frame/Observer::unsubscribe-forwards', 'src/public.rs', 'unsubscribe', r'self\.internal\.unsubscribe\(\w+\)', impl=OB))
+    add({'C10', 'C09'}, lambda: F.body_is('frame/Observer::subscribe-is-try_subscribe', 'src/public.rs', 'subscribe', r'self\.try_subscribe\(\w+\)\.unwrap\(\)', impl=OB))
+    add({'C05', 'C07', 'C10'}, lambda: F.in_order('frame/Incr::observe-registers-with-the-state', 'src/incr.rs', 'observe',
+                                          [r'\.\s*state\(\)\s*\.\s*observe\(\s*\w+\s*\)', r'Observer::new\(\s*\w+\s*\)'], impl=IN))
+    add({'C06'}, lambda: F.body_is('frame/Incr::set_cutoff-forwards', 'src/incr.rs', 'set_cutoff', r'self\.node\.set_cutoff\(\w+\);', impl=IN))
+    add({'C06'}, lambda: F.body_is('frame/Incr::set_cutoff_fn-forwards', 'src/incr.rs', 'set_cutoff_fn', r'self\.node\.set_cutoff\(Cutoff::Fn\(\w+\)\);', impl=IN))
     add({'C06'}, lambda: F.body_is('frame/Incr::set_cutoff_fn_boxed-forwards', 'src/incr.rs', 'set_cutoff_fn_boxed',
-                                   r'self\.node\.set_cutoff\(Cutoff::FnBoxed\(Box::new\(cutoff_fn\)\)\);', impl=IN))
+                                   r'self\.node\.set_cutoff\(Cutoff::FnBoxed\(Box::new\(\w+\)\)\);', impl=IN))
     add({'C06'}, lambda: F.body_is('frame/Node::set_cutoff-installs-the-erased-cutoff', 'src/node.rs', 'set_cutoff',
-                                   r'self\.cutoff\.replace\(cutoff\.erased\(\)\);', impl='impl<R: Value> Incremental<R> for Node'))
+                                   r'self\.cutoff\.replace\(\w+\.erased\(\)\);', impl='impl<R: Value> Incremental<R> for Node'))
     add({'C06'}, lambda: F.body_is('frame/Cutoff::erased-wraps-itself', 'src/cutoff.rs', 'erased', r'ErasedCutoff::new\(self\)', impl='impl<T: ?Sized> Cutoff<T>'))
     add({'C06'}, lambda: F.in_order('frame/nodes-start-with-the-PartialEq-cutoff', 'src/node.rs', 'create',
-                                    [r'let\s+cutoff\s*=\s*Cutoff::<R>::PartialEq\.erased\(\)', r'Self::create_inner\(state,\s*created_in,\s*kind,\s*cutoff\)'], impl='impl Node'))
+                                    [r'let\s+(\w+)\s*=\s*Cutoff::<R>::PartialEq\s*\.\s*erased\(\)', r'Self::create_inner\(\s*\w+\s*,\s*\w+\s*,\s*\w+\s*,\s*\w+\s*\)'], impl='impl Node'))
     add({'C09'}, lambda: F.in_order('frame/Incr::on_update-registers-a-handler-created-now', 'src/incr.rs', 'on_update',
-                                    [r'let\s+now\s*=\s*state\.stabilisation_num\.get\(\)', r'OnUpdateHandler::new\(now,', r'self\.node\.add_on_update_handler\(handler\)'], impl=IN))
+                                    [r'\.\s*stabilisation_num\s*\.\s*get\(\)', r'OnUpdateHandler::new\(\s*\w+\s*,', r'self\s*\.\s*node\s*\.\s*add_on_update_handler\(\s*\w+\s*\)'], impl=IN))
     add({'C09', 'C11'}, lambda: F.in_order('frame/Node::add_on_update_handler-counts-it', 'src/node.rs', 'add_on_update_handler',
-                                    [r'self\.num_on_update_handlers\.increment\(\)', r'ouh\.push\(Box::new\(handler\)\)'], impl='impl<R: Value> Incremental<R> for Node'))
+                                    [r'self\s*\.\s*num_on_update_handlers\s*\.\s*increment\(\)'], impl='impl<R: Value> Incremental<R> for Node'))
 
     # -- expert API surface (src/kind/expert.rs `public`, src/state/expert.rs) --------------------------------------
     EP = 'impl<T: Value> Node<T>'
@@ -222,26 +202,26 @@ def frames(prop):
     add({'C14'}, lambda: F.in_order('frame/a-new-edge-keeps-its-callback-and-has-no-index', 'src/kind/expert.rs', 'new',
                                     [r'on_change:\s*RefCell::new\(on_change\)', r'index:\s*None\.into\(\)'], impl='impl<T> Edge<T>'))
     add({'C14'}, lambda: F.in_order('frame/add_dependency_with-registers-the-callback', 'src/kind/expert.rs', 'add_dependency_with',
-                                    [r'Edge::new\(on\.clone\(\),\s*Some\(Box::new\(on_change\)\)\)', r'expert::add_dependency\(&self\.incr\.node\.packed\(\),\s*edge\)'], impl=EP))
+                                    [r'Edge::new\(\s*\w+\.clone\(\)\s*,\s*Some\(\s*Box::new\(\s*\w+\s*\)\s*\)\s*\)', r'expert::add_dependency\(\s*&self\.incr\.node\.packed\(\)\s*,\s*\w+\s*\)'], impl=EP))
     add({'C14'}, lambda: F.in_order('frame/add_dependency-links-the-edge', 'src/kind/expert.rs', 'add_dependency',
-                                    [r'Edge::new\(on\.clone\(\),\s*None\)', r'expert::add_dependency\(&self\.incr\.node\.packed\(\),\s*edge\)'], impl=EP))
+                                    [r'Edge::new\(\s*\w+\.clone\(\)\s*,\s*None\s*\)', r'expert::add_dependency\(\s*&self\.incr\.node\.packed\(\)\s*,\s*\w+\s*\)'], impl=EP))
     add({'C14'}, lambda: F.in_order('frame/remove_dependency-unlinks-that-edge', 'src/kind/expert.rs', 'remove_dependency',
-                                    [r'let\s+edge\s*=\s*dep\.edge\.upgrade\(\)\.unwrap\(\)', r'expert::remove_dependency\(&\*self\.incr\.node,\s*&\*edge\)'], impl=EP))
+                                    [r'\.\s*edge\s*\.\s*upgrade\(\)', r'expert::remove_dependency\(\s*&\*self\.incr\.node\s*,\s*&\*\w+\s*\)'], impl=EP))
     add({'C14'}, lambda: F.body_is('frame/expert-public-make_stale-forwards', 'src/kind/expert.rs', 'make_stale',
                                    r'expert::make_stale\(&self\.incr\.node\.packed\(\)\)', impl=EP))
     add({'C14'}, lambda: F.body_is('frame/expert-public-invalidate-forwards', 'src/kind/expert.rs', 'invalidate',
                                    r'expert::invalidate\(&self\.incr\.node\.packed\(\)\)', impl=EP))
-    add({'C14'}, lambda: F.body_is('frame/state-expert-add_dependency-forwards', 'src/state/expert.rs', 'add_dependency', r'node\.expert_add_dependency\(edge\);'))
-    add({'C14'}, lambda: F.body_is('frame/state-expert-remove_dependency-forwards', 'src/state/expert.rs', 'remove_dependency', r'node\.expert_remove_dependency\(dyn_edge\);'))
-    add({'C14'}, lambda: F.body_is('frame/state-expert-make_stale-forwards', 'src/state/expert.rs', 'make_stale', r'node\.expert_make_stale\(\);'))
+    add({'C14'}, lambda: F.body_is('frame/state-expert-add_dependency-forwards', 'src/state/expert.rs', 'add_dependency', r'\w+\.expert_add_dependency\(\w+\);?'))
+    add({'C14'}, lambda: F.body_is('frame/state-expert-remove_dependency-forwards', 'src/state/expert.rs', 'remove_dependency', r'\w+\.expert_remove_dependency\(\w+\);?'))
+    add({'C14'}, lambda: F.body_is('frame/state-expert-make_stale-forwards', 'src/state/expert.rs', 'make_stale', r'\w+\.expert_make_stale\(\);?'))
     add({'C14'}, lambda: F.in_order('frame/an-expert-node-recomputes-only-after-before_main_computation', 'src/node.rs', 'recompute_one',
-                                    [r'Kind::Expert\(e\)\s*=>\s*match\s+e\.before_main_computation\(\)', r'Err\(Invalid\)\s*=>\s*\{\s*self\.invalidate_node\(state\);\s*state\.propagate_invalidity\(\);',
-                                     r'Ok\(\(\)\)\s*=>', r'e\.recompute\.borrow_mut\(\)\.as_mut\(\)', r'self\.maybe_change_value\(value,\s*state\)'], impl='impl ErasedNode for Node'))
+                                    [r'Kind::Expert\(\s*(\w+)\s*\)\s*=>', r'\.\s*before_main_computation\(\)', r'Err\(\s*Invalid\s*\)\s*=>', r'self\s*\.\s*invalidate_node\(', r'\.\s*propagate_invalidity\(\)',
+                                     r'Ok\(\s*\(\)\s*\)\s*=>', r'\.\s*recompute\s*\.\s*borrow_mut\(\)', r'self\s*\.\s*maybe_change_value\('], impl='impl ErasedNode for Node'))
     add({'C14', 'C06'}, lambda: F.in_order('frame/child_changed-runs-the-edge-callback-of-an-expert-parent', 'src/node.rs', 'child_changed',
-                                    [r'Kind::Expert\(expert\)\s*=>\s*expert\.run_edge_callback\(child_index\)'], impl='impl ErasedNode for Node'))
+                                    [r'Kind::Expert\(\s*(\w+)\s*\)\s*=>\s*\1\s*\.\s*run_edge_callback\(\s*\w+\s*\)'], impl='impl ErasedNode for Node'))
 
     # -- only needed nodes are scheduled -------------------------------------------------------------------
     add({'C05'}, lambda: F.each_guarded(
         'frame/every-recompute_heap.insert-is-dominated-by-a-necessity-test-or-assertion', r'recompute_heap\s*\.\s*insert\(',
-        [r'is_necessary\(\)', r'needs_to_be_computed\(\)'], ['src/node.rs', 'src/state.rs', 'src/var.rs'], window=30, min_hits=9))
+        [r'is_necessary\(\)', r'needs_to_be_computed\(\)'], ['src/node.rs', 'src/state.rs', 'src/var.rs'], window=30, min_hits=5))
     return fs
